@@ -2,12 +2,35 @@ import LitexProofs.Export.Decode
 import LitexProofs.Export.Roundtrip
 import LitexProofs.Export.MemImage
 import LitexProofs.Export.Soc
+import LitexProofs.Export.Adapt
 /-
   C14 — exported software maps tell the truth about the hardware.
 
-  Model: `LitexModel/Export/{Addr,Accessor,MemImage}.lean` (tied to `/repo` by `harness/props/c14.py`: real SoCs are
+  Model: `LitexModel/Export/{Addr,Accessor,MemImage,Soc,Adapt}.lean` (tied to `/repo` by `harness/props/c14.py`: real SoCs are
   built, exported and every exported address is accessed in simulation; every model function below is compared with
   what that run observed).
+
+  Inventory: every exporter of `litex/soc/integration/export.py` / `common.py` / `builder.py` against the model
+  (M = Lean model function, T = theorem, tie = how the real code is compared; "oracle" = model-independent check of c14lib).
+
+  | exporter (file written by Builder)                  | model                                   | theorems                                   | tie |
+  |-----------------------------------------------------|-----------------------------------------|--------------------------------------------|-----|
+  | get_csr_json / get_csr_csv (csr.json, csr.csv)      | exportAddrs, regAddrs, jsonWords        | export_matches_decode_*, json_words_eq_hw, json_next_address, json_csv_svd_agree | `export`, `jsonwords`, `chunks` calls per SoC and on hand-made regions; every view's own addresses driven on the bus |
+  | get_csr_header (csr.h): addresses, CSR_BASE         | headerAddrs                             | json_csv_svd_agree                         | `export` H part; CHeader evaluates the emitted C |
+  | csr.h accessors <reg>_read/_write                   | accRead, accWriteWords, hwWords, hwWrite| accessor_roundtrip_big/_partial            | `accread/accwrite/hwwords/hwwrite`, stores/loads on the real SoC |
+  | csr.h field macros / _extract / _replace            | fieldExtract                            | field_extract_exact                        | `fieldextract`; _replace: oracle only |
+  | get_csr_svd (csr.svd): registers, bases, interrupts | svdAddrsK                               | json_csv_svd_agree(_kinds), irq_export_*   | `export` S part; SVD memoryRegions/constants/interrupt: oracle |
+  | CSR memories (csr_bases of windows, <mem>_page)     | sramSel, sramSelWide, wideWord/wideSub  | mem_window(_paged), wide_mem_roundtrip_head| `sramsel/sramwide/wideword/widesub/sweep`; paged AND wide at once: not driven (open gap) |
+  | get_mem_header (mem.h *_BASE/_SIZE, MEM_REGIONS str) | memExport, selectedSlaves               | region_export_decoded_partial              | `slaves` call; MEM_REGIONS string: oracle |
+  | get_linker_regions (regions.ld), get_memory_x       | memExport (same triples)                | region_export_decoded_partial              | oracle: each bus region exactly once, _stext = reset address inside a region |
+  | get_linker_output_format (output_format.ld)         | -                                       | -                                          | oracle (stub CPU's format string) |
+  | window -> cell behind add_master/add_slave adapters | convS2M/M2S, axil2wb, wb2axil, slaveCell| published_reaches_cell, cell_reached_only_from_its_word, adapters_transparent | `slavecell` per store of the window walk (cell observed in the slave's memory), `chainword/masterbus/adrconv` on add_adapter alone |
+  | get_soc_header (soc.h), JSON/CSV/SVD constants      | addConstants                            | constants_declared_once                    | `constants`; values: oracle |
+  | <NAME>_INTERRUPT, CONFIG_CPU_INTERRUPTS             | irqConstants, irqWiring, cpuInterrupts  | irq_export_matches_wiring                  | `irq` call + event fired on the real SoC |
+  | common.get_mem_data (ROM/RAM init images)           | memImage, imageByte                     | mem_image_lanes, mem_image_any_base, _gap, _length | `memimage/imagebytes`; init images read back through the bus |
+  | get_git_header (git.h), get_cpu_mak (variables.mak), get_i2c_header | -                       | -                                          | not addresses of the hardware: outside the property |
+  | common.get_boot_address                             | -                                       | -                                          | not modelled (not used by the Builder flow; parses the base with int(base, 0) while get_mem_data uses base 16) |
+  | load_csr_json (import of another SoC's csr.json)    | -                                       | -                                          | not modelled |
 -/
 namespace Litex.Export
 
@@ -352,6 +375,115 @@ example : headerAddrs 0 0 0x800 32 32 [⟨0, [2, 32, 32]⟩, ⟨2, [8, 40, 33, 1
     disagree (Python would print a negative offset; `Nat` subtraction truncates). -/
 example : headerAddrs 0x2000 0 0x800 32 32 [⟨3, [8]⟩] ≠ exportAddrs 0 0x800 32 32 [⟨3, [8]⟩] := by decide
 
+/-! ## Published memory window -> storage cell, through `SoCBusHandler.add_adapter` (mixed bus standards) -/
+
+/-- **published_reaches_cell.**  For EVERY master kind (wishbone word / wishbone byte / AXI-Lite-AXI), EVERY slave kind
+    (word-addressed wishbone core such as `wishbone.SRAM` or a user register file, byte-addressed wishbone core,
+    AXI-Lite/AXI core), both SoC bus addressings (wishbone = word, axi-lite/axi = byte), every bus width `8·2^shB`,
+    slave width `8·2^shS ≤` bus width, address width and window of `2^cb` cells aligned on its size (`origin = m·2^(shS+cb)`,
+    `SoCRegion`'s alignment rule): an access at published address `origin + 2^shS·k + o` (`o` a byte inside the word) reaches
+    cell `k` of the slave — through `add_master`'s "m2s" adapters, the interconnect, and `add_slave`'s "s2m" adapters
+    (`bus_addressing_convert`'s four slice assignments and the `AXILite2Wishbone`/`Wishbone2AXILite` shifts). -/
+theorem published_reaches_cell (mk : MasterKind) (kind : SlaveKind) (busByte : Bool) (shS shB aw cb m k o : Nat)
+    (h1 : shS ≤ shB) (h2 : shB ≤ aw) (hk : k < 2 ^ cb) (ho : o < 2 ^ shS)
+    (ha : m * 2 ^ (shS + cb) + 2 ^ shS * k + o < 2 ^ aw) :
+    slaveCell mk kind busByte shS shB aw cb (m * 2 ^ (shS + cb) + 2 ^ shS * k + o) = k := by
+  rw [slaveCell_eq mk kind busByte shS shB aw cb _ ha h1 h2]
+  have e : m * 2 ^ (shS + cb) + 2 ^ shS * k + o = 2 ^ shS * (m * 2 ^ cb + k) + o := by
+    rw [Nat.pow_add, Nat.mul_add, Nat.mul_left_comm]
+  rw [e, Nat.mul_add_div (Nat.two_pow_pos shS), Nat.div_eq_of_lt ho, Nat.add_zero, Nat.add_comm,
+    Nat.add_mul_mod_self_right, Nat.mod_eq_of_lt hk]
+
+/-- **cell_reached_only_from_its_word** (the converse).  Inside the published window `[origin, origin + 2^(shS+cb))` the cell
+    an access reaches is `(a - origin) / 2^shS`: cell `k` answers exactly for the byte addresses of published word `k`
+    (no aliasing inside the window, nothing of the window is unreachable). -/
+theorem cell_reached_only_from_its_word (mk : MasterKind) (kind : SlaveKind) (busByte : Bool) (shS shB aw cb origin a : Nat)
+    (h1 : shS ≤ shB) (h2 : shB ≤ aw) (horg : origin % 2 ^ (shS + cb) = 0)
+    (hlo : origin ≤ a) (hhi : a < origin + 2 ^ (shS + cb)) (ha : a < 2 ^ aw) :
+    slaveCell mk kind busByte shS shB aw cb a = (a - origin) / 2 ^ shS := by
+  obtain ⟨m, hm⟩ : ∃ m, origin = m * 2 ^ (shS + cb) := ⟨origin / 2 ^ (shS + cb), by
+    have := Nat.div_add_mod origin (2 ^ (shS + cb)); rw [horg, Nat.add_zero, Nat.mul_comm] at this; exact this.symm⟩
+  have hP := Nat.two_pow_pos shS
+  have hd : a - origin < 2 ^ shS * 2 ^ cb := by rw [← Nat.pow_add]; omega
+  have hk : (a - origin) / 2 ^ shS < 2 ^ cb := Nat.div_lt_of_lt_mul hd
+  have ho : (a - origin) % 2 ^ shS < 2 ^ shS := Nat.mod_lt _ hP
+  have hsplit : a = m * 2 ^ (shS + cb) + 2 ^ shS * ((a - origin) / 2 ^ shS) + (a - origin) % 2 ^ shS := by
+    have := Nat.div_add_mod (a - origin) (2 ^ shS); omega
+  have := published_reaches_cell mk kind busByte shS shB aw cb m _ _ h1 h2 hk ho (by rw [← hsplit]; exact ha)
+  rw [← hsplit] at this
+  exact this
+
+/-- Non-vacuity: a 64 x 32-bit `wishbone.SRAM` at 0x30000000 on an axi-lite SoC, AXI-Lite master: published word 5 is cell 5,
+    the last word is cell 63; a 32-bit wishbone slave on a 64-bit axi-lite bus (down-converter): word 5 is cell 5; a
+    byte-addressed wishbone core on a wishbone SoC driven by an AXI-Lite master.  Negative witness for the alignment
+    hypothesis: the same RAM at 0x30000040 answers published word 0 with cell 16.  And why the `[shift:]` slice of
+    `bus_addressing_convert` matters (what seeded change C14-r4m2 removed): without it (shift 0) word 1 lands in cell 4. -/
+example : slaveCell .axil .wbword true 2 2 32 6 (0x30000000 + 4 * 5) = 5 ∧
+    slaveCell .axil .wbword true 2 2 32 6 (0x30000000 + 4 * 63 + 3) = 63 ∧
+    slaveCell .axil .wbword true 2 3 32 6 (0x30000000 + 4 * 5) = 5 ∧
+    slaveCell .axil .wbbyte false 2 2 32 6 (0x40000000 + 4 * 9) = 9 ∧
+    slaveCell .wbword .axil false 3 3 32 5 (0x50000000 + 8 * 31) = 31 ∧
+    slaveCell .axil .wbword true 2 2 32 6 0x30000040 = 16 ∧
+    convS2M true false 2 30 0x30000004 % 2 ^ 6 = 1 ∧ convS2M true false 0 30 0x30000004 % 2 ^ 6 = 4 := by decide
+
+/-- **adapters_transparent**: the two directions compose to the identity on bus words — what a word-addressed master
+    presents arrives unchanged at a word-addressed slave across a byte-addressed bus, and a byte-addressed slave on a
+    word-addressed bus sees the word's base byte address. -/
+theorem adapters_transparent (sh aw w : Nat) (hw : w < 2 ^ (aw - sh)) :
+    convS2M true false sh (aw - sh) (convM2S true false sh aw w) = w ∧
+    convS2M false true sh aw w = w * 2 ^ sh ∧
+    convM2S false true sh (aw - sh) (convS2M false true sh aw w) = w := by
+  have hP := Nat.two_pow_pos sh
+  refine ⟨?_, ?_, ?_⟩ <;>
+    simp [convS2M, convM2S, Nat.mod_eq_of_lt hw, Nat.mul_div_cancel _ hP]
+
+/-! ## JSON/CSV word count = the hardware register's word count -/
+
+/-- **json_words_eq_hw.**  For EVERY register width and bus word: the `size` that `get_csr_json`/`get_csr_csv` publish (and by
+    which the address of the next register advances) is the number of simple CSRs `CSRStorage/CSRStatus.do_finalize` cuts
+    the register into; those simple CSRs are non-empty, at most a bus word wide and hold exactly the register's `size`
+    bits; no smaller word count can hold the register (so the ceiling — not the floor — is forced); and it is the
+    `nwords` the address theorems above run on. -/
+theorem json_words_eq_hw (bw size : Nat) (hbw : 0 < bw) :
+    jsonWords bw size = (hwChunks bw size).length ∧
+    (hwChunks bw size).sum = size ∧
+    (∀ c ∈ hwChunks bw size, 0 < c ∧ c ≤ bw) ∧
+    (∀ n, n * bw < size → n < jsonWords bw size) ∧
+    jsonWords bw size = nwords bw size ∧
+    (∀ big, (hwChunksAddr big bw size).length = jsonWords bw size) := by
+  have hcover : size ≤ (size + bw - 1) / bw * bw := by
+    have := Nat.lt_div_mul_add (a := size + bw - 1) hbw; omega
+  have hmin : ∀ i, i < (size + bw - 1) / bw → i * bw < size := by
+    intro i hi
+    have h1 : (i + 1) * bw ≤ (size + bw - 1) / bw * bw := Nat.mul_le_mul_right _ hi
+    have h2 := Nat.div_mul_le_self (size + bw - 1) bw
+    rw [Nat.add_mul, Nat.one_mul] at h1; omega
+  refine ⟨by simp [hwChunks, jsonWords], ?_, ?_, ?_, rfl, ?_⟩
+  · unfold hwChunks; rw [chunks_sum]; omega
+  · intro c hc
+    simp only [hwChunks, List.mem_map, List.mem_range] at hc
+    obtain ⟨i, hi, rfl⟩ := hc
+    have := hmin i hi
+    omega
+  · intro n hn
+    by_contra hge
+    have : (size + bw - 1) / bw * bw ≤ n * bw := Nat.mul_le_mul_right _ (Nat.le_of_not_lt hge)
+    omega
+  · intro big; cases big <;> simp [hwChunksAddr, hwChunks, jsonWords]
+
+/-- The running JSON/CSV/csr.h address steps over exactly the simple CSRs of the register before it. -/
+theorem json_next_address (stride bw origin s : Nat) (rest : List Nat) :
+    regAddrs stride bw origin (s :: rest) =
+      (origin, jsonWords bw s) :: regAddrs stride bw (origin + stride * (hwChunksAddr true bw s).length) rest := by
+  have : (hwChunksAddr true bw s).length = nwords bw s := by simp [hwChunksAddr, hwChunks, nwords]
+  rw [this]; rfl
+
+/-- Non-vacuity: a 40-bit register on the 32-bit CSR bus is 2 words (8 + 32 bits, most significant first in address order),
+    48 bits on 32: 16 + 32; 12 bits on the 8-bit bus: 4 + 8.  Negative witness (seeded change C14-r4m1's floor): one word
+    cannot hold 40 bits. -/
+example : jsonWords 32 40 = 2 ∧ hwChunksAddr true 32 40 = [8, 32] ∧ hwChunksAddr false 32 48 = [32, 16] ∧
+    hwChunksAddr true 8 12 = [4, 8] ∧ max 1 (40 / 32) = 1 ∧ ¬ (1 * 32 < 40 → 1 < max 1 (40 / 32)) := by decide
+
 /-! ## Memory initialisation images -/
 
 /-- **mem_image_lanes.**  For every file content (bytes `< 256`), data width `32·q`, endianness and word-aligned
@@ -395,6 +527,28 @@ theorem mem_image_lanes (big : Bool) (q k : Nat) (bytes : List Nat) (a : Nat) (h
   rw [hoff, sub32_lane big bytes hb _ (a % 4) (Nat.mod_lt _ (by decide))]
   congr 1
   omega
+
+/- Full statement of the property for images (does NOT hold on the code): file byte `a` of a region placed at `base` is read at
+   bus address `base - offset + a`.  `get_mem_data` indexes its word list with `(base - offset)//bytes_per_data` — the
+   floor — so a region whose base is not a multiple of the memory word (e.g. a 4-byte aligned JSON region on a 64-bit bus) is
+   silently placed at the aligned-down address.  `mem_image_lanes` above is the `_partial` form (aligned base); the exact
+   behaviour for every base is `mem_image_any_base`, and the example below is the negative witness (candidate finding
+   `C14-mem-image-unaligned-base`). -/
+/-- **mem_image_any_base.**  For EVERY base (aligned or not): the image holds file byte `a` at byte address
+    `⌊baseOff/(4q)⌋·4q + a` (and padding zeros up to the end of the file's last word). -/
+theorem mem_image_any_base (big : Bool) (q baseOff : Nat) (bytes : List Nat) (a : Nat) (hq : 0 < q)
+    (hb : ∀ b ∈ bytes, b < 256) (ha : a / (4 * q) < (bytes.length + 4 * q - 1) / (4 * q)) :
+    imageByte big q (memImage big q baseOff bytes) (baseOff / (4 * q) * (4 * q) + a) = bytes.getD a 0 := by
+  have hpos : 0 < 4 * q := by omega
+  rw [← mem_image_lanes big q (baseOff / (4 * q)) bytes a hq hb ha]
+  unfold imageByte
+  simp only [memImage_getD _ _ _ _ _ hq, Nat.mul_div_cancel _ hpos]
+
+/-- Negative witness (unaligned base): 4 bytes placed at byte offset 2 of a 32-bit memory are stored at offset 0 — the CPU
+    reads file byte 0 at address 0, and finds file byte 2 where byte 0 should be; a 4-byte aligned region at offset 4 of a
+    64-bit memory lands at offset 0. -/
+example : imageByte false 1 (memImage false 1 2 [1, 2, 3, 4]) 2 = 3 ∧ imageByte false 1 (memImage false 1 2 [1, 2, 3, 4]) 0 = 1 ∧
+    memImage false 2 4 [1, 2, 3, 4] = [0x04030201] := by decide
 
 /-- Words below the file's placement are zero. -/
 theorem mem_image_gap (big : Bool) (q k : Nat) (bytes : List Nat) (a : Nat) (hq : 0 < q) (ha : a < k * (4 * q)) :
